@@ -1162,6 +1162,72 @@ def gen_countdowns_and_run(rng: Rng, c: int, r: int):
     return sc.case, sc.out
 
 
+SQLGRID_ALL = [(f, h, q) for f in ("GOOD", "COMPROMISED", "CORRUPT", "absent") for h in ("GOOD", "COMPROMISED", "FIXING")
+               for q in ("SELECT", "DELETE", "ENCRYPT", "INSERT", "PGSTAT", "OTHER")]
+PWGRID_ALL = [(sp, cp) for sp in (None, 0, 1, 2) for cp in (None, 0, 1, 2)]
+
+
+def gen_sqlgrid_and_run(rng: Rng, fhealth: str, health: str, q: str):
+    """ENUMERATED (round 7): `_process_sql` on the full grid file state (GOOD / COMPROMISED / CORRUPT / no live file) x service
+    health (GOOD / COMPROMISED / FIXING) x query (the five known ones and an unknown one): 72 cells, each asked over a live
+    connection, over a never-issued id, over a closed id, and followed by a SELECT."""
+    def tweak(case):
+        case["bkcfg"] = True
+        case["fix"] = 3
+        case["max"] = max(case["max"], 3)
+        case["clients"][0]["pw"] = case["srv_pw"]
+    sc = _Script(rng, "sqlgrid", tweak)
+    with instrumented(sc.rec):
+        w = World(sc.case, sc.rec)
+        e = lambda op: sc.emit(w, op)   # noqa: E731
+        e(["connect", 0])
+        e(["connect", 0])
+        e(["hd", 1])
+        if fhealth == "COMPROMISED":
+            e(["hq", 0, "DELETE"])
+        elif fhealth == "CORRUPT":
+            e(["fcor"] if rng.chance(1, 2) else ["hq", 0, "ENCRYPT"])
+        elif fhealth == "absent":
+            e(["fdel"])
+        if health == "COMPROMISED":
+            e(["svc", "compromise"])
+        elif health == "FIXING":
+            e(["svc", "fix"])
+        e(["hq", 0, q])
+        e(["rq", 0, 7, q])      # never issued
+        e(["rq", 0, 1, q])      # closed
+        e(["rq", 0, None, q])   # no id at all
+        e(["hq", 0, "SELECT"])
+    return sc.case, sc.out
+
+
+def gen_pwgrid_and_run(rng: Rng, spw, cpw):
+    """ENUMERATED (round 7): server password x client password over {None, "", two distinct strings}: 16 cells; connect, then the
+    other red / native paths with the same pair, then wrong-then-right and right-then-changed-on-the-server."""
+    def tweak(case):
+        case["srv_pw"] = spw
+        case["max"] = 100
+        for c in case["clients"]:
+            c["pw"] = cpw
+    sc = _Script(rng, "pwgrid", tweak)
+    with instrumented(sc.rec):
+        w = World(sc.case, sc.rec)
+        e = lambda op: sc.emit(w, op)   # noqa: E731
+        e(["connect", 0])
+        e(["nc", 0])
+        e(["ex", 0])
+        e(["cpw", 0, spw])
+        e(["connect", 0])
+        for other in (None, 0, 1, 2):
+            e(["spw", other])
+            e(["connect", 0])
+            e(["hq", 0, "SELECT"])
+        e(["spw", spw])
+        e(["cpw", 0, cpw])
+        e(["connect", 0])
+    return sc.case, sc.out
+
+
 def gen_backups_and_run(rng: Rng):
     """Repeated backups taken in different health: (damage | repair)* backup, change the health, backup again (refused while a
     copy exists), sometimes delete the copy on the backup host / take the timestep-1 backup by a tick, then damage and restore:
